@@ -18,6 +18,9 @@ pub enum Error {
     /// The required attribute was not found in the RPSL object.
     #[error("no {0} attribute found in RPSL object {1}")]
     FindAttribute(AttributeType, RpslObject),
+    /// Neither an `mp-filter:` nor a `filter:` attribute was found in a `filter-set` object.
+    #[error("no mp-filter or filter attribute found in filter-set object {0}")]
+    FindFilterAttribute(String),
     /// An unexpected RPSL object type was received.
     #[error("unexpected RPSL object {0}")]
     RpslObjectClass(RpslObject),
